@@ -8,12 +8,13 @@ import Driver.C16
 import Driver.C17
 import Driver.C18
 import Driver.C19
+import Driver.C20
 import Driver.World
 import Driver.Ser
 import Driver.C08
 open Lean Nutree Driver
 
-def handlers : List (St → String → Json → Option (E Json)) := [handleC06, handleC09, handleC10, handleC11, handleC15, handleC16, handleC17, handleC18, handleC19, handleSer]
+def handlers : List (St → String → Json → Option (E Json)) := [handleC06, handleC09, handleC10, handleC11, handleC15, handleC16, handleC17, handleC18, handleC19, handleC20, handleSer]
 
 def dispatch (st : St) (j : Json) : St × Json :=
   match j.getObjVal? "op" >>= Json.getStr? with
